@@ -209,6 +209,7 @@ func runPoolWorkload(r *gen.R, c poolCfg, emit func(string)) {
 	s.Handle("r.$id", res.Call("do", handler), res.Call("qe", qeHandler))
 	s.Handle("g.$id", res.Call("do", handler), res.Call("qe", qeHandler), res.Group("grp.${id}"))
 	s.Handle("p.$id", res.Call("do", handler), res.Parallel(true))
+	s.Handle("", res.Call("do", handler)) // the root resource: its group is the service name
 
 	emit("reset")
 	var qsubmitted int64
@@ -292,7 +293,9 @@ func runPoolWorkload(r *gen.R, c poolCfg, emit func(string)) {
 					case c.requests && kind < 4:
 						// a request message through the connection
 						var subj, group string
-						switch sr.Intn(5) {
+						switch sr.Intn(6) {
+						case 5:
+							subj, group = "call.pool.do", "pool"
 						case 0:
 							subj, group = fmt.Sprintf("call.pool.r.%d.do", gi), fmt.Sprintf("pool.r.%d", gi)
 						case 1:
